@@ -7,7 +7,7 @@ from n0v import coqlit as L
 from n0v.core import Prop
 
 NAMES = ["a", "b", "name", "tag", "S"]
-LEAFS = ["x", "y", "P1", "v1", "a", "Rn", 1, 0, None, True]
+LEAFS = ["x", "y", "P1", "v1", "a", "Rn", 1, 0, None, True, "a b", "ab"]
 
 
 # ---- trees ----------------------------------------------------------------------------
